@@ -80,6 +80,12 @@ theorem newtonRaphson_certified' (f : ℝ → ℝ) (cfg : NRConfig ℝ) (hE : cf
     (hr : newtonRaphson f cfg guess = some r) : Certified f cfg r :=
   newtonRaphson_certified f cfg hE guess r hr
 
+/-- every value the hybrid returns through its step test was reached by a regular step (Newton,
+secant or bisection), not by an Aitken extrapolation -/
+theorem newtonRaphson_reached_regularly (f : ℝ → ℝ) (cfg : NRConfig ℝ) (hE : cfg.errorOnMaxIter = true) (guess r : ℝ)
+    (hr : newtonRaphson f cfg guess = some r) : ReachedRegularly f cfg r :=
+  newtonRaphson_regular f cfg hE guess r hr
+
 /-- the bracket bookkeeping is an invariant of the solver: in every reachable state the recorded
 values are `f` at the bracket ends, the bracket is ordered, and once the root is bracketed the
 current iterate lies inside and the end values have opposite signs -/
